@@ -11,6 +11,10 @@ from . import roles
 ALL = frozenset(range(256))
 
 
+def applies(facts, cfg):
+    return True
+
+
 def byte_var_test(e, isb):
     """interpret a boolean expression over the byte variable: returns the set of byte values for which
     it is TRUE, or None if it does not (only) test the byte"""
@@ -143,7 +147,14 @@ def analyse_fmt(b, facts):
         if t["k"] == "switch":
             c = eb.operand(t["discr"], (x, len(b.blocks[x]["stmts"])))
             T = byte_var_test(c, isb)
-            if T is not None and t["discr_ty"] == "bool":
+            if t["discr_ty"] == "u8" and (isb(c) or isb(("deref", canon(c)))):
+                # `match b { b'\n' => .., .. }`: a switch on the byte itself
+                vals = set()
+                for val, dst in t["targets"]:
+                    outs.append((dst, S & frozenset([val])))
+                    vals.add(val)
+                outs.append((t["otherwise"], S - frozenset(vals)))
+            elif T is not None and t["discr_ty"] == "bool":
                 for val, dst in t["targets"]:
                     outs.append((dst, S & T if val == 1 else S - T))
                 # otherwise edge: the remaining truth value
